@@ -407,12 +407,7 @@ func (c *Channel) TouchMessage(clientID int64, id MessageID, clientMsgTimeout ti
 	}
 
 	msg.pri = newTimeout.UnixNano()
-	err = c.pushInFlightMessage(msg)
-	if err != nil {
-		return err
-	}
-	c.addToInFlightPQ(msg)
-	return nil
+	return c.pushInFlight(msg)
 }
 
 // FinishMessage successfully discards an in-flight message
@@ -518,12 +513,7 @@ func (c *Channel) StartInFlightTimeout(msg *Message, clientID int64, timeout tim
 	msg.clientID = clientID
 	msg.deliveryTS = now
 	msg.pri = now.Add(timeout).UnixNano()
-	err := c.pushInFlightMessage(msg)
-	if err != nil {
-		return err
-	}
-	c.addToInFlightPQ(msg)
-	return nil
+	return c.pushInFlight(msg)
 }
 
 func (c *Channel) StartDeferredTimeout(msg *Message, timeout time.Duration) error {
@@ -537,16 +527,19 @@ func (c *Channel) StartDeferredTimeout(msg *Message, timeout time.Duration) erro
 	return nil
 }
 
-// pushInFlightMessage atomically adds a message to the in-flight dictionary
-func (c *Channel) pushInFlightMessage(msg *Message) error {
+// pushInFlight adds a message to the in-flight dictionary and to the in-flight
+// priority queue in one step, so that the two never disagree about a message
+// that is being delivered (a message that is already in flight is refused and
+// does not get a second priority queue entry)
+func (c *Channel) pushInFlight(msg *Message) error {
 	c.inFlightMutex.Lock()
-	_, ok := c.inFlightMessages[msg.ID]
-	if ok {
-		c.inFlightMutex.Unlock()
+	defer c.inFlightMutex.Unlock()
+
+	if _, ok := c.inFlightMessages[msg.ID]; ok {
 		return errors.New("ID already in flight")
 	}
 	c.inFlightMessages[msg.ID] = msg
-	c.inFlightMutex.Unlock()
+	c.inFlightPQ.Push(msg)
 	return nil
 }
 
@@ -565,12 +558,6 @@ func (c *Channel) popInFlightMessage(clientID int64, id MessageID) (*Message, er
 	delete(c.inFlightMessages, id)
 	c.inFlightMutex.Unlock()
 	return msg, nil
-}
-
-func (c *Channel) addToInFlightPQ(msg *Message) {
-	c.inFlightMutex.Lock()
-	c.inFlightPQ.Push(msg)
-	c.inFlightMutex.Unlock()
 }
 
 func (c *Channel) removeFromInFlightPQ(msg *Message) {
